@@ -60,6 +60,7 @@ Result(s, n) ==
     [] s = "method-suffix" -> 2              \* t:m():m()...v with m returning self
     [] s = "and-chain"   -> 6                \* true and true and ... and 6
     [] s = "elseif-chain" -> 9               \* n elseif branches that are not taken, then else return 9
+    [] s = "nested-fn-chains" -> 5           \* n nested function expressions, each at the deep end of a chain of 5000 index suffixes
     [] OTHER -> 0
 
 (* Programs that recurse without bound through a route that nests the implementation's own stack (a metamethod
@@ -77,7 +78,11 @@ RecShapes == {"rec-index", "rec-newindex", "rec-add", "rec-sub", "rec-mul", "rec
    compiler are recursive, so these are also explored at sizes far beyond any sensible limit *)
 DeepShapes == {"nest-do", "nest-paren", "nest-table", "nest-func", "nest-if", "unary-chain", "pow-chain", "nest-call", "nest-index"}
 ChainShapes == {"concat-chain", "call-suffix", "index-suffix", "method-suffix"}
-SizesOf(s) == Sizes \cup (IF s \in DeepShapes THEN HugeDeep ELSE {}) \cup (IF s \in ChainShapes THEN HugeChain ELSE {})
+(* depth that adds up across nested function bodies: each body is compiled from inside the recursion over the enclosing
+   expression, so a per-function limit does not bound the recursion *)
+NestChainSizes == {1, 10, 19, 21, 100, 300}
+SizesOf(s) == IF s = "nested-fn-chains" THEN NestChainSizes
+              ELSE Sizes \cup (IF s \in DeepShapes THEN HugeDeep ELSE {}) \cup (IF s \in ChainShapes THEN HugeChain ELSE {})
 
 Init == done = FALSE
 Next == /\ ~done /\ done' = TRUE
